@@ -529,7 +529,7 @@ pub fn run(ctx: &mut Ctx) -> Result<(), Violation> {
     if ctx.tier == Tier::Thorough {
         progs.extend(random_programs(ctx.seed, 600));
     } else {
-        progs.extend(random_programs(ctx.seed, 40));
+        progs.extend(random_programs(ctx.seed, 120));
     }
     let results: std::sync::Mutex<std::collections::HashMap<String, bool>> = std::sync::Mutex::new(Default::default());
     let r = ctx.par_each(&progs, |_, p, ev| {
